@@ -25,6 +25,8 @@ type Entity struct {
 type Store struct {
 	Entities map[string]*Entity     `json:"entities"`
 	Roots    map[string]interface{} `json:"roots"` // "Query.field" -> stored value
+	// Epoch (atomic): when not zero every leaf value except ids depends on it - "the data changed since the last request"
+	Epoch int32 `json:"-"`
 }
 
 // World is self-contained: replay files carry it verbatim.
